@@ -154,6 +154,8 @@ class Program:
                     elif isinstance(st, ast.Assign) and len(st.targets) == 1 and \
                             isinstance(st.targets[0], ast.Name):
                         ci.consts[st.targets[0].id] = st.value
+                    elif isinstance(st, ast.AnnAssign) and st.value is not None and isinstance(st.target, ast.Name):
+                        ci.consts[st.target.id] = st.value
                     elif isinstance(st, ast.ClassDef):
                         walk(st, qual, None, parent)
             elif isinstance(node, (ast.If, ast.Try, ast.With, ast.For, ast.While)):
@@ -169,6 +171,13 @@ class Program:
             elif isinstance(st, ast.Assign) and len(st.targets) == 1 and \
                     isinstance(st.targets[0], ast.Name):
                 mod.consts[st.targets[0].id] = st.value
+            elif isinstance(st, ast.AnnAssign) and st.value is not None and isinstance(st.target, ast.Name):
+                mod.consts[st.target.id] = st.value
+            elif isinstance(st, ast.Assign) and len(st.targets) == 1 and isinstance(st.targets[0], (ast.Tuple, ast.List)) and \
+                    isinstance(st.value, (ast.Tuple, ast.List)) and len(st.value.elts) == len(st.targets[0].elts) and \
+                    all(isinstance(t_, ast.Name) for t_ in st.targets[0].elts) and not any(isinstance(v_, ast.Starred) for v_ in st.value.elts):
+                for t_, v_ in zip(st.targets[0].elts, st.value.elts):      # A, B = 1, 2 at module level
+                    mod.consts[t_.id] = v_
             elif isinstance(st, (ast.Import, ast.ImportFrom)):
                 mod.imports.append(st)
             elif isinstance(st, (ast.If, ast.Try)):
